@@ -31,7 +31,8 @@ RULE = (
     "around the packet size, max packet 32..1024, UART framing and USB-HID, cmd_exception on/off; device-status mirror "
     "(error status at every command and stage, aborted / short / mute data phases); fault sweep: one fault per run at a "
     "position of the recorded device->host stream (bit flip, wrong CRC, dropped byte, NAK, ABORT, truncated / missing "
-    "emission, not-ready bytes). SDP: read/write/write-file/dcd/csf/skip-dcd/jump/error-status on open and closed "
+    "emission, not-ready bytes); the calls that follow the faulty one run on the link as the fault left it (40 % of the "
+    "histories end in 2..5 calls the device refuses) and are judged by the same rule. SDP: read/write/write-file/dcd/csf/skip-dcd/jump/error-status on open and closed "
     "devices over UART and USB-HID, status-word mirror, fault sweep (drop, truncate, missing); SDPS for every family. "
     "A signature is (protocol, transport, operation, length class, packet class, mode, outcome class); non-trivial = the "
     "call reached the device model and was judged."
@@ -49,9 +50,12 @@ ASSUMPTIONS = [
     "USB-HID max packet sizes stop at 1020: a report (4 + payload) never exceeds the 1024 bytes the host requests per read",
     "an empty SDP data phase on the serial link is not generated (the empty write would flush the ROM's answer: timing, not protocol); "
     "SDP set_baudrate is outside the operations the property lists",
+    "a call after the faulty one may fail for any documented reason (the host side may be out of step); load_image after a fault is "
+    "not judged when it succeeds (bare data packets, no response of its own: a device still inside the abandoned command takes them "
+    "for that command and nothing on the link says so); SDP has neither framing nor tags, calls after an SDP fault are not made",
     "bounded time = number of driver read calls <= 10 x fault-free device->host length + 1000 (logical, virtual clock)",
 ]
-REQUIRED_COUNTERS = ["memory_lists", "mboot_ops_judged", "mboot_fault_runs", "mboot_status_mirror", "transcript_ops_checked",
+REQUIRED_COUNTERS = ["memory_lists", "mboot_ops_judged", "mboot_fault_runs", "mboot_calls_after_fault", "mboot_calls_after_fault_succeeded", "mboot_status_mirror", "transcript_ops_checked",
                      "sdp_ops_judged", "sdp_fault_runs", "sdps_files", "sdps_family_switches"]
 CASE_TIMEOUT_S = 600
 WATCHDOG_S = {"quick": 1500, "thorough": 7200}
@@ -694,6 +698,22 @@ def gen_mboot_op(rng, kind, mps, small=False, big=False, mem_choices=(0, 0, 0, M
     return o
 
 
+def _refused_op(rng) -> dict:
+    """An operation the device model answers with an error status (read-only / unknown property, fuse index out of range,
+    fill outside the memory map)."""
+    C = MD.MbootCore
+    k = rng.randrange(5)
+    if k == 0:
+        return {"op": "set_property", "tag": core.pick(rng, [0x01, 0x77]), "value": rng.getrandbits(32)}
+    if k == 1:
+        return {"op": "get_property", "tag": 0x55, "index": 0}
+    if k == 2:
+        return {"op": "efuse_read_once", "index": C.OTP_WORDS + rng.randrange(0, 4)}
+    if k == 3:
+        return {"op": "fill", "addr": 0x1000_0000, "len": 4 * rng.randrange(1, 9), "pattern": rng.getrandbits(32)}
+    return {"op": "efuse_program_once", "index": C.OTP_WORDS + rng.randrange(0, 4), "value": rng.getrandbits(32), "verify": False}
+
+
 def op_len(op) -> int:
     if "data" in op:
         return len(op["data"])
@@ -1190,6 +1210,59 @@ def fault_key(tr, op, f: Fault, out: Outcome, what: str, sess=None) -> str:
     return f"mboot-{tr}-{f.kind}-{em}-{op['op']}-success-with-wrong-result"
 
 
+def _responses_name_their_command(events) -> bool:
+    """HID transcript of one call: does every generic response the host read name the command it had just sent?"""
+    last = None
+    for ev in events:
+        if ev[0] == "w" and len(ev[1]) > 4 and ev[1][0] == 1:
+            last = ev[1][4]
+        elif ev[0] == "r" and len(ev[2]) >= 16 and ev[2][0] == 3:
+            pay = ev[2][4:]
+            if pay[0] == 0xA0 and pay[8] != last:
+                return False  # a generic response carries the tag of the command it answers: the host can tell (repaired)
+            # a typed response (GetProperty, ReadMemory, ...) carries no command tag
+    return last is not None
+
+
+def _judge_after_fault(ctx, sess, tr, op, out, j0, loose0, peek, f, detail, index, pending):
+    """A call made after the one that met the fault.  The device model went on as the protocol says, the host side is in
+    whatever state its error handling left it: a failure is fine, a reported success has to be true."""
+    ctx.count("mboot_calls_after_fault")
+    em = f.info["emission"] if f.info else "?"
+    d = dict(detail, later_op=op_brief(op), later_observed=out.brief(), later_index=index)
+    sig = ["mboot", tr, "after-fault", f.kind, em, op["op"]]
+    if out.exc is not None and not documented(out.exc):
+        ctx.violation(f"mboot-{tr}-call-after-{f.kind}-{em}-undocumented-{type(out.exc).__name__}", d)
+        return
+    succ = reported_success(out) or (op["op"] == "load_image" and out.exc is None and out.ret is True)
+    if not succ:
+        ctx.ok(sig + ["failed"])
+        del sess.core.anomalies[:]
+        return
+    if op["op"] == "load_image":
+        # load_image sends bare data packets and gets no response of its own; a device that is still inside the command the
+        # host gave up (waiting for its data, or for the acknowledge of its response) takes them for that command.  Nothing
+        # on the link tells the host, so a success here is not judged.
+        ctx.ok(sig + ["bare-data-after-abandoned-command-not-judged"], nontrivial=False)
+        del sess.core.anomalies[:]
+        return
+    cls, viol = judge_mboot(sess, op, out, j0, loose0, peek)
+    if viol or cls not in ("ok", "ok-empty", "reset-no-response-tolerated"):
+        why = [m for m, _ in viol][:3]
+        key = f"mboot-{tr}-call-after-{f.kind}-{em}-{op['op']}-success-with-wrong-result"
+        if pending[0] and all(m.endswith("-reported-as-success") or "-differ" in m for m in why) and cls != "command-mismatch" \
+                and _responses_name_their_command(sess.link.events[pending[1]:]):
+            # reports were waiting unread when the call began, so every command of the call got the answer to an earlier one;
+            # each generic one among them names the very command that was sent (anything else is refused since the repair),
+            # the typed ones name no command at all
+            key = "mboot-usb-unread-reports-answer-later-commands"
+        ctx.violation(key, dict(d, judged=cls, why=why, unread_reports_before_the_call=pending[0],
+                               transcript_of_the_call=[(e[0], core.hx(e[1] if e[0] == "w" else e[2], 14)) for e in sess.link.events[pending[1]:] if e[0] in "wr"][:12]))
+    else:
+        ctx.count("mboot_calls_after_fault_succeeded")
+        ctx.ok(sig + ["succeeded"])
+
+
 def _same_outcome(a: Outcome, b: Outcome) -> bool:
     return a.ret == b.ret and a.status == b.status and type(a.exc) is type(b.exc)
 
@@ -1235,12 +1308,17 @@ def run_mboot_fault_case(ctx, cfg, ops, rng, budget, cands_fn=None):
             _prepare_op(sess, op)
             peek = mboot_peek_expected(sess.core, op)
             j0, loose0 = len(sess.core.journal), len(sess.core.loose_data)
+            # reports of an earlier command that the host never read (USB-HID has no flush)
+            pending = (len(sess.link.queue) if tr == "usb" else 0, len(sess.link.events))
             try:
                 out = sess.run(op)
             except ReadBudget:
                 ctx.violation(fault_key(tr, op, f, Outcome(), "bound"), dict(detail, op=op_brief(op), bound=bound, reads=sess.link.reads))
                 judged = True
                 break
+            if judged:  # a call made after the faulty one: the link is as the fault left it, the rule is the same
+                _judge_after_fault(ctx, sess, tr, op, out, j0, loose0, peek, f, detail, i, pending)
+                continue
             if not f.done:
                 if not _same_outcome(out, outs0[i]):
                     raise core.Inconclusive(f"run before the fault differs from the recording at op {i}")
@@ -1262,6 +1340,7 @@ def run_mboot_fault_case(ctx, cfg, ops, rng, budget, cands_fn=None):
                 else:
                     stats["absorbed"] += 1
                     ctx.ok(sig + ["tolerated"])
+                    continue
                 break
             succ = reported_success(out) or (op["op"] == "load_image" and out.exc is None and out.ret is True)
             ack_of = bytes(sess.link.cause.get(f.pos - f.info["offset"], b"")[:2]) if kind == "flip" and f.info["emission"] == "ack" else b""
@@ -1279,13 +1358,16 @@ def run_mboot_fault_case(ctx, cfg, ops, rng, budget, cands_fn=None):
                 cls, viol = judge_mboot(sess, op, out, j0, loose0, peek)
                 if viol or cls not in ("ok", "ok-empty", "reset-no-response-tolerated"):
                     ctx.violation(fault_key(tr, op, f, out, "success", sess), dict(detail, judged=cls, why=[m for m, _ in viol][:3]))
-                else:
-                    stats["absorbed"] += 1
-                    ctx.ok(sig + ["absorbed"])
+                    break
+                stats["absorbed"] += 1
+                ctx.ok(sig + ["absorbed"])
             else:
                 stats["surfaced"] += 1
                 ctx.ok(sig + ["surfaced", type(out.exc).__name__ if out.exc else "status"])
-            break
+            # the calls that follow run on the link as the fault left it (section 'after the fault' of the docstring)
+            del sess.core.anomalies[:]
+            if getattr(sess.tdev, "malformed", None):
+                del sess.tdev.malformed[:]
         if not judged:
             stats["not-triggered"] += 1
     for k2, n in stats.items():
@@ -1814,6 +1896,21 @@ def _directed_mboot(ctx):
                     return [("trunc", d[0], 4 + plen - 2), ("trunc", c[0], 3), ("trunc", c[0], 10), ("missing", d[0], 0), ("abort", d[0], 0),
                             ("missing", c2[0], 0), ("trunc", c2[0], 9)]
                 run_mboot_fault_case(ctx, cfg, ops, ctx.rng, 100, cands_fn=cands)
+
+                # known finding: the data report of a one-packet read is cut, the host gives the command up and leaves its
+                # final response unread; the next call takes it (refused since the repair: it names another command), the
+                # call after that takes the answer of ITS predecessor - the same command, so a refused fill reports success
+                def cands2(ems):
+                    return [("trunc", next(e for e in ems if e[1] == "data")[0], 2)]
+                ops2 = [{"op": "read", "addr": ram + 0x100, "len": 20, "mem": 0},
+                        {"op": "fill", "addr": ram + 0x200, "len": 16, "pattern": 0x11223344},
+                        {"op": "fill", "addr": 0x1000_0000, "len": 16, "pattern": 0x55667788}]
+                run_mboot_fault_case(ctx, cfg, ops2, ctx.rng, 10, cands_fn=cands2)
+                # repaired: the unread final response of the read was taken for the answer to ANOTHER command - a refused
+                # set_property reported success, a fuse read died with AssertionError
+                for later in ({"op": "set_property", "tag": 0x77, "value": 5}, {"op": "efuse_read_once", "index": 3},
+                              {"op": "write", "addr": ram + 0x300, "data": bytes(range(40)), "mem": 0}):
+                    run_mboot_fault_case(ctx, cfg, [ops2[0], later], ctx.rng, 10, cands_fn=cands2)
             else:
                 def cands(ems):
                     d = next(e for e in ems if e[1] == "data")
@@ -1911,6 +2008,10 @@ def run_case(case, ctx):  # noqa: C901
         ex = kind.endswith("exhaustive")
         kinds = [k for k in FAULT_OPS if k != "kp_read_key_store"] if ex else FAULT_OPS
         ops = [gen_mboot_op(rng, rng.choice(kinds), cfg["mps"], small=True, mem_choices=(0,)) for _ in range(1 if ex else rng.randrange(1, 4))]
+        if not ex and rng.random() < 0.4:
+            # probe tail: calls the device refuses.  Whatever the fault left behind on the host side (a response nobody
+            # read, a half-consumed data phase), none of them may come back as a success.
+            ops += [_refused_op(rng) for _ in range(rng.randrange(2, 6))]
         run_mboot_fault_case(ctx, cfg, ops, rng, 2500 if ex else case["budget"])
         return None
     if kind == "sdp_hist":
